@@ -20,6 +20,14 @@ CHECKS = {
   text="Lean theorems for all byte strings: the read(copyBlock) loop (block size extracted from VFS_Real.copyto) reproduces the bytes for every positive block size, with non-empty blocks of at most one block; the Gopher+ '+N' header parses back to exactly the body length and the body to the file; unknown size gives '+-2'; HEAD is the GET headers with no body; the WAP text-to-WML conversion is invertible line by line up to right-stripping (and injective); MIME type is the table's answer adjusted per protocol. Tie: blocks written by the real copyto, whole Gopher+/HTTP/WML responses and MIME types vs the model. Oracle: body==file bytes, +N==len, HEAD==GET headers, type==mimetypes, independent WML inverse, for sizes around every multiple of 4096, binary/CRLF/invalid-UTF-8 contents, hostile names, 9 protocol syntaxes, both handler lists.",
   note="partial: TOCTOU between stat and open, TLS record layer and decompressor/script output are runtime (length oracle only); mimetypes.guess_type is an oracle fed to the model",
   technique="Lean 4 proof (copy loop, framing, WML inverse) + differential correspondence + byte-equality oracle"),
+ "C09": dict(
+  text="Lean theorems for every gophermap file and line: one entry per line in file order (parse distributes over concatenation, no state crosses lines), a line without a tab is an info entry with the stripped text, otherwise first character = type, rest of first field = description, missing selector defaults to the description, a selector starting neither with '/' nor 'URL:' is resolved against the directory, host/port taken when present else unset and rendered as this server, population from the file system never changes authored selector/host/port, well-formed lines never raise; the same parsed list drives every protocol view. Tie: real listings in seven views (Gopher, Gopher+ '+' and '$', HTTP, WAP, Gemini, Spartan) of seeded gophermaps at depth 0-3 vs the model, byte for byte in the rows region, with stat/MIME/sidecar answers of existing targets fed to the model. Oracle: independent reader written from doc/standards/gophermap.txt.",
+  note="port fields restricted to ASCII decimals (int() accepts more); boilerplate around the rows and Mod-Date formatting are masked; library answers (stat, mimetypes, regex mapping) are oracles",
+  technique="Lean 4 proof of the gophermap parser model + byte-level differential correspondence in seven views"),
+ "C13": dict(
+  text="Lean theorems: for any page built from literal segments and escaped data slots whose slots are all reached outside tag position (a check computed on the literals alone), the tag/attribute skeleton and final tokenizer state are the same for ALL data (skeleton_of_shape, by induction on the segment list); every builder that mirrors pygopherd's HTML/WML generators (HTTP rows for every entry shape and icon of the extracted icon table, directory start, error pages, URL redirect page, WML rows for every counter value and access key, WML error/start pages, text-to-WML for every file) is proved safe and composition-closed; html.escape output never contains < > \" '; the URL filter refuses a double quote; Gopher+ attribute content lines are indented and free of line breaks, so none can pass for a block header. Tie: real listing rows, error pages and WML text pages equal the model's emitted segments byte for byte. Oracle: skeleton(real page with payload) == skeleton(real page with inert twin) in every echo position; header lines server-chosen.",
+  note="browser parsing is represented by a four-state tokenizer; the configurable page topper is administrator markup; HTML <title> position only partly exercised",
+  technique="Lean 4 proof (skeleton invariance over segment templates) + byte-level correspondence + payload/twin oracle"),
  "C19": dict(
   text="Lean theorems for every option combination and every fault position (unbounded index) of the start-up model: bind and key loading precede any privilege drop, chroot then chdir('/') then setgroups(()) then setregid then setreuid, root rewritten to '/', failure of any step aborts with nothing executed after it. Tie is complete and kernel-checked: the real initialize() is executed under substituted system calls on all 16 x (1 + fault positions) points and `table_agrees` proves the executed table equals the model's.",
   note="trusted: the substitution of os/pwd/grp/socket/ssl entry points observes every privileged call; kernel behaviour of the real system calls and the detach fork are not modelled",
